@@ -4,6 +4,7 @@ import AtsimModel.Model.Expr
 import AtsimModel.Model.Poly
 import AtsimModel.Gen.Forms
 import AtsimModel.Gen.Combinators
+import AtsimModel.Gen.Splines
 namespace Atsim.Drv
 open Lean Atsim.Gen
 
@@ -55,6 +56,14 @@ def handleExpr (op : String) (j : Json) : Except String Json := do
     return arrJ (pts.map fun
       | r :: cs => floatJ (if which == "call" then polyCall r cs else if which == "deriv" then polyDeriv r cs else polyDeriv2 r cs)
       | [] => Json.null)
+  | "system" =>
+    -- evaluate a generated spline system under symbol values: name ∈ exp|buck4, params -> {M: rows, V: rhs}
+    let name ← getStr j "name"
+    let ps ← getFloats j "params"
+    let (M, V) := if name == "exp" then (expA, expB) else (buck4M, buck4V)
+    if (M.any fun r => r.any E.isBad) || V.any E.isBad then return Json.str "untranslatable"
+    let ev := fun (e : E) => floatJ (E.evalF (fun i => ps.getD i 0.0) (fun _ => 0.0) 0.0 e)
+    return Json.mkObj [("M", arrJ (M.map fun r => arrJ (r.map ev))), ("V", arrJ (V.map ev))]
   | "params" =>
     return arrJ (formTable.map fun (n, _, _, _, k) => arrJ [Json.str n, natJ k])
   | _ => throw s!"unknown expr op {op}"
